@@ -138,7 +138,12 @@ type DecCoinsV struct {
 }
 
 // TimeV models time.Time as nanoseconds since the Unix epoch (UTC).
-type TimeV struct{ NS Value }
+// TimeV models time.Time as nanoseconds since the epoch. Local marks a value whose location is the process-local zone
+// (time.Unix / UnixMilli / Local()): its calendar fields depend on the node's time zone, which is an environment input.
+type TimeV struct {
+	NS    Value
+	Local bool
+}
 
 // BlobV is a typed opaque byte string: the encoding of exactly one theory value.
 type BlobV struct {
